@@ -145,7 +145,9 @@ theorem filter_removes_exactly_failing_alts {fs : String} {f : Filter} {fld : In
       | succ j => simp
   rw [hget]
   rcases hcase with ⟨hnone, _, _⟩ | ⟨obs', ho', hnum, hlen, hc⟩ | ⟨obs', bs, ho', hnum, hlen, hc, rfl⟩
-  · rw [ho] at hnone; cases hnone
+  · rcases hnone with hn | ⟨_, h0⟩
+    · rw [ho] at hn; cases hn
+    · omega
   · rw [ho] at ho'; cases ho'
     have hfa := cmpAll_forall₂ hc
     obtain ⟨hl, hg⟩ := List.forall₂_iff_get.mp hfa
